@@ -214,6 +214,9 @@ type Stub struct {
 	mu    sync.Mutex
 	Fault RPCFault
 	Log   []string
+	// Between, if set, runs between the two deliveries of a duplicated request (the harness drains
+	// the first delivery's background work there).
+	Between func()
 	// LastReq is a copy of the last push-pull request sent through this stub.
 	LastReq *model.PushPullMessage
 }
@@ -252,6 +255,9 @@ func (s *Stub) ProcessPushPull(ctx context.Context, in *model.PushPullMessage, _
 	}
 	out, err := call()
 	if fault == RPCDupRequest {
+		if s.Between != nil {
+			s.Between()
+		}
 		out, err = call()
 	}
 	s.Sched.Gate("rpc.response:pushpull:" + s.Name)
